@@ -51,7 +51,7 @@ def r1(ctx):
     args = [u(a) for a in ctor.value.args]
     outer = _outer_loops(find, loop)
     ok = len(outer) == 1 and args and args[0] == u(outer[0].target)
-    ctx.check(ok, "finder:find:platform-named-after-platform", f"Platform must be named after the platform being processed: Platform({', '.join(args)})", find.loc(ctor))
+    ctx.soft(ok, "finder:find:platform-named-after-platform", f"Platform must be named after the platform being processed: Platform({', '.join(args)})", find.loc(ctor))
     # (b) loop-carried values (through either the entry loop or the platform loop)
     params = set(find.params)
     for lp in [loop] + outer:
@@ -403,7 +403,16 @@ def r5(ctx):
 
     bm, bt = load_block(m), load_block(t)
     same = ast.dump(bm) == ast.dump(bt)
-    ctx.check(same, "__main__:_main/tree:_tree:loading-blocks-equal", "the analysis-file loading code of codebasin and cbi-tree differ: the two front ends would analyse different configurations", t.loc(bt))
+    why = ""
+    if not same:
+        # different text: compare what the two blocks do, case by case, in both directions
+        from .. import review
+
+        tm, tt = review.block_table([bm]), review.block_table([bt])
+        diffs = review.compare_tables(tt, tm) + review.compare_tables(tm, tt)
+        same = not diffs
+        why = "; ".join(d[3][:200] for d in diffs[:2])
+    ctx.check(same, "__main__:_main/tree:_tree:loading-blocks-equal", f"the analysis-file loading code of codebasin and cbi-tree differ: the two front ends would analyse different configurations: {why}", t.loc(bt))
     for f, b in ((m, bm), (t, bt)):
         loops = [x for x in ast.walk(b) if isinstance(x, ast.For) and "analysis_toml['platform']" in u(x.iter) and any(isinstance(y, ast.Call) and callee(y) == "config.load_database" for y in ast.walk(x))]
         key = f"{f.key}:platform-selection"
